@@ -391,6 +391,13 @@ func drvNullRefs(r *rand.Rand, n int) [][]Action {
 				if StdName(q) == "" {
 					h = append(h, Action{A: "ImportAlias", P: "unused/" + q, N: "u"})
 				}
+				if r.Intn(2) == 0 && q != local {
+					// a dot-import hint for a path that only occurs in omitted pairs: no import may result
+					h = append(h, Action{A: "ImportAlias", P: "onlydead/" + q, N: "."})
+					dead := "onlydead/" + q
+					h = append(h, Action{A: "Add", Tree: dictDecl([2]*Node{{K: "stmt", Items: []*Node{{K: "tok", T: "lit", V: "1"}}}, {K: "stmt", Items: []*Node{{K: "tok", T: "lit", V: "2"}}}},
+						[2]*Node{qualStmt(dead, st.sym(dead)), nullStmt()})})
+				}
 			}
 		}
 		h = append(h, Action{A: "Render"})
@@ -416,6 +423,9 @@ func drvDotLocal(r *rand.Rand, n int) [][]Action {
 		if r.Intn(3) == 0 {
 			a.Ctor = "NewFilePath"
 			a.Name = RefGuess(L)
+		} else if r.Intn(2) == 0 {
+			// NewFilePathName with package names of several shapes (an external test package, a name unrelated to the path)
+			a.Name = []string{RefGuess(L) + "_test", "main", "other", RefGuess(L)}[r.Intn(4)]
 		}
 		h := []Action{a}
 		dots := map[string]bool{}
@@ -522,7 +532,7 @@ func drvCgo(r *rand.Rand, n int) [][]Action {
 		{"#include <a.h>", "#include <b.h>", "static int x = 1;"},
 		// the same line more than once: every occurrence is part of the preamble
 		{"#ifdef A", "#include <a.h>", "#endif", "#ifdef B", "#include <b.h>", "#endif"}, {"#include <a.h>", "#include <a.h>"}, {"int x;", "", "int x;"}}
-	others := []string{"x/d", "fmt", "y/d", "x/c", "unsafe"}
+	others := []string{"x/d", "fmt", "y/d", "x/c", "unsafe", "9fans.net/go/acme", "B/up", "A.b/c", "-dash/p", "4d63.com/x"} // (some sort before "C")
 	for i := 0; i < n; i++ {
 		st := &symtab{}
 		pre := pres[r.Intn(len(pres))]
